@@ -34,6 +34,12 @@ OS level   : BELOW the interface (OS_KINDS, gcsim.os_failing): while ONE operati
              reachable and live file and none of them is deleted.  (Finding on the unchanged library:
              findings/C07-failed-listing-reads-empty-unchanged-tree.log -- LocalStorageBackend.list_files answered [] for a
              marker directory it could not look at and the sweep removed the files of live transactions.)
+             The two places where list_files can swallow an OS failure (the guard in front of the walk, os.walk's onerror) are
+             REGENERATED (translator/gen_locallist.py -> Gen/GenLocalList.v) as predicates over the failure's class;
+             Model/LocalList.v local_list_outcome; C07_local_listing_fails_closed (a listing that returns although something could
+             not be looked at comes only from 'not there' failures), C07_marker_listing_raise_aborts (a raising marker listing
+             aborts, store unchanged, for every oracle); correspondence `local_listing`: the real list_files under a failing
+             stat / scandir of the prefix and of a directory below it x {EACCES, EIO, ESTALE, ENOENT, ENOTDIR} vs the model.
              `gc_damage`: every damage class {missing, garbage, empty, cut inside the Avro block, cut in the header}
              on every reachable list / manifest, plus BYTE-LEVEL damage anywhere in the file -- single-byte flips and
              truncations over the header, the block framing, EVERY record and every sync marker (quick: spread + structural
@@ -102,7 +108,7 @@ THEOREMS = ["C07_fail_closed", "C07_damage", "C07_transient", "C07_partial_decod
             "C07_json_section_lost_aborts", "C07_readable_records_complete", "C07_structured_damage_aborts",
             "C07_list_record_without_path_refused",
             "C07_marker_stat_failure_protects", "C07_marker_kernel_fail_closed", "C07_marker_loop_regenerated",
-            "C07_marker_stat_fault_keeps_protection"]
+            "C07_marker_stat_fault_keeps_protection", "C07_local_listing_fails_closed", "C07_marker_listing_raise_aborts"]
 REQ = gcsim.REQ
 TIMEOUT_MS = h5.TIMEOUT_MS
 
@@ -141,7 +147,10 @@ MANIFEST_ENTRY = {
                   "faulted stat leaves the store unchanged and the marker's targets protected); faults are injected at the backend's "
                   "OWN operations (instrumented subclass: helper methods of the backend composed from them are exercised) with every "
                   "exception class per operation (EIO, 404 for a listed object, EACCES, timeout, SDK error, ValueError), on the local "
-                  "backend and on a third-party backend implementing only the abstract interface",
+                  "backend and on a third-party backend implementing only the abstract interface; C07_local_listing_fails_closed / "
+                  "C07_marker_listing_raise_aborts (which OS failures LocalStorageBackend.list_files turns into 'no files', REGENERATED "
+                  "from its guard and its os.walk onerror handler, Gen/GenLocalList.v: only 'not there' failures; any other propagates, "
+                  "and a raising marker listing aborts the collection with the store unchanged), tied by `local_listing`",
     "level_note": "C07_pointer_run_safe_partial carries the hypothesis `a_hint a2 <> PNone`; the statement without it "
                   "(C07_pointer_run_safe_full) is REFUTED in Coq (C07_pointer_run_safe_refuted): a pointer that looks absent at both "
                   "reads with a dead writer's unpublished higher version on storage makes the scan result the table and files the "
@@ -1294,6 +1303,82 @@ def run_campaign(ctx) -> None:
                                    "model_outcome_code": model["out"], "deleted": sorted(model["deleted"])}})
 
 
+# ------------------------------------------------------------------------------------------ the local backend's listing under OS failures
+LISTING_ERRNOS = ["EACCES", "EIO", "ESTALE", "ENOENT", "ENOTDIR"]
+ABSENT_ERRNOS = ("ENOENT", "ENOTDIR")
+
+
+def listing_cases() -> List[Dict[str, Any]]:
+    """Where the operating system fails while LocalStorageBackend.list_files(prefix) runs: looking at the prefix itself (stat),
+    scanning the prefix directory, scanning a directory below it -- with every errno class."""
+    out = []
+    for err in LISTING_ERRNOS:
+        out.append({"fn": "stat", "at": "prefix", "errno": err})
+        out.append({"fn": "scandir", "at": "prefix", "errno": err})
+        out.append({"fn": "scandir", "at": "sub", "errno": err})
+    return out
+
+
+def listing_case(base: str, case: Dict[str, Any]) -> Dict[str, Any]:
+    from datashard.storage_backend import LocalStorageBackend
+    root = os.path.join(base, "tbl")
+    shutil.rmtree(base, ignore_errors=True)
+    for rel in ("pre/a.inflight", "pre/b.inflight", "pre/sub/c.inflight", "pre/sub/deep/d.inflight", "other/e"):
+        h5._plant(root, rel, b"x")
+    be = LocalStorageBackend(root)
+    truth = sorted(p.replace(os.sep, "/") for p in be.list_files("pre"))
+    target = os.path.join(root, "pre" if case["at"] == "prefix" else "pre/sub")
+    try:
+        with gcsim.os_failing(case["fn"], case["errno"], target):
+            got = sorted(p.replace(os.sep, "/") for p in be.list_files("pre"))
+        outcome = 0 if got == truth else 1
+        detail = f"returned {got} (true listing: {truth})"
+    except Exception as e:  # noqa: BLE001
+        outcome, detail = 2, f"raised {type(e).__name__}: {e}"[:200]
+    shutil.rmtree(base, ignore_errors=True)
+    return {"outcome": outcome, "detail": detail, "truth": truth}
+
+
+def listing_expr(case: Dict[str, Any]) -> str:
+    absent = "true" if case["errno"] in ABSENT_ERRNOS else "false"
+    # a failing stat of the prefix is the probe; a directory that cannot be scanned (the prefix's own or one below) is the walk
+    args = f"(Some {absent}) None" if case["fn"] == "stat" else f"None (Some {absent})"
+    return f"match local_list_outcome {args} with LComplete => 0%nat | LShort => 1%nat | LRaise => 2%nat end"
+
+
+def run_listing(ctx, only: Optional[Dict[str, Any]] = None) -> List[Dict[str, Any]]:
+    """Oracle: a failure that does not mean 'not there' must not read as a complete-looking (short / empty) listing.
+    Correspondence `local_listing`: outcome {complete, short, raise} of the real list_files vs Model/LocalList.v."""
+    cases = [c for c in listing_cases() if only is None or c == only]
+    hits = []
+    res = []
+    for c in cases:
+        r = listing_case(os.path.join(ctx.scratch, "listing"), c)
+        res.append(r)
+        if r["outcome"] == 1 and c["errno"] not in ABSENT_ERRNOS:
+            what = (f"LocalStorageBackend.list_files('pre') while {c['fn']} of the {'prefix' if c['at'] == 'prefix' else 'directory pre/sub'} "
+                    f"fails with {c['errno']}: {r['detail']} -- a failed listing reads as a short one (the collector takes an empty marker "
+                    f"listing as 'no transaction in flight')")
+            hits.append({"key": f"listing-failure-reads-short:{c['fn']}:{c['at']}:{c['errno']}", "what": what, "case": c})
+    if only is not None:
+        return hits
+    for h in hits:
+        ctx.violation(h["key"], h["what"], {"listing": h["case"]})
+    try:
+        vals = coqbuild.coq_eval(["DS.Gen.GenLocalList", "DS.Model.LocalList"], [listing_expr(c) for c in cases])
+    except RuntimeError as e:
+        ctx.proof_problems.append("model evaluation failed (local listing): " + str(e)[:400])
+        return hits
+    bad = []
+    for c, r, v in zip(cases, res, vals):
+        ctx.count(1, ("listing", c["fn"], c["at"], c["errno"]))
+        # a sub-directory that is "not there" for the walk is skipped: the model says short, the real listing lacks its files
+        if int(v) != r["outcome"]:
+            bad.append({"case": c, "code": r["outcome"], "model": int(v), "detail": r["detail"]})
+    ctx.correspondence("local_listing", len(cases), bad)
+    return hits
+
+
 def run(ctx) -> None:
     import logging
     logging.disable(logging.CRITICAL)
@@ -1304,6 +1389,8 @@ def run(ctx) -> None:
                 "operation and key path)")
     ctx.trusted_base += [
         "translator/gen_norm.py (regenerated path kernel; try/except skeleton of collect / _load_inflight_protection / _marker_targets / _gc_prefix pinned)",
+        "translator/gen_locallist.py (which exception classes LocalStorageBackend.list_files' guard and os.walk onerror handler swallow; "
+        "classification of OS failures into 'not there' = FileNotFoundError / NotADirectoryError and everything else)",
         "translator/gen_gcmarker.py (per-marker decision kernel of _load_inflight_protection; fail closed on a listing other than storage.list_files, "
         "a handler narrower than Exception, any other storage operation)",
         "harness: harness/props/c07.py, harness/lib/gcsim.py (fault injection at the backend's own operations through an instrumented subclass of "
@@ -1324,14 +1411,22 @@ def run(ctx) -> None:
         "pointer plane: `same` (the dict comparison of the two TableMetadata objects) distinguishes documents with different snapshot lists; a "
         "pointer that answers 'absent' at both reads is a lost pointer for the library (scan result = the table): C07_pointer_run_safe_refuted",
     ]
-    ctx.proofs(THEOREMS, gen_files=["GenNorm.v", "GenDoc.v", "GenGCMarker.v"])
+    ctx.proofs(THEOREMS, gen_files=["GenNorm.v", "GenDoc.v", "GenGCMarker.v", "GenLocalList.v"])
     ctx.allow_axioms([])
+    run_listing(ctx)
     run_campaign(ctx)
 
 
 def replay(ctx, payload) -> int:
     case = payload.get("case", {})
     spec = case.get("spec")
+    if case.get("listing"):
+        hits = run_listing(ctx, case["listing"])
+        for v in hits:
+            print("replay: STILL FAILS", v["key"], "-", v["what"])
+        if not hits:
+            print("replay: passes now")
+        return 1 if hits else 0
     if not spec:
         print("replay: payload names a broken proof / correspondence; re-run ./bin/check C07 thorough")
         return 2
